@@ -352,3 +352,93 @@ def r9_merge_appends(ctx):
 
 
 RULES += [r9_merge_appends]
+
+
+def r10_fold_guards(ctx):
+    ctx.rule("C17.r10", "simplify folds a block C into its predecessor P (P.copy_back(C); remove(C)) only if C is not the entry block "
+             "(which cannot be removed: a cycle through the entry gives it a single predecessor) and P is not the exit block "
+             "(the executions that end at the exit must not run the statements of its successors)", floor=2)
+    CFG = "include/crab/cfg/cfg.hpp"
+    CFGC = "crab::cfg::cfg"
+    from ..match import guard_truth
+    n = 0
+    for fn in ctx.db.fns(CFG, cpk=CFGC):
+        body = fn.get("body")
+        if not body:
+            continue
+        folds = [c for c in walk(body) if is_call(c, name="copy_back") and "o" in c and c.get("a")]
+        if not folds:
+            continue
+        decls = local_decls(body)
+        gs = paths.guards(body)
+
+        def label_forms(blk):
+            """expressions that denote the label of the block `blk`"""
+            out = []
+            b = strip(blk)
+            r = resolve_local(body, b, decls)
+            if is_call(r, name=("get_node",)) and r.get("a"):
+                out.append(strip(r["a"][0]))
+            return b, out
+
+        def is_label_of(e, blk):
+            b, forms = label_forms(blk)
+            e = strip(e)
+            if is_call(e, name="label") and "o" in e and same_expr(strip(e["o"]), b):
+                return True
+            return any(same_expr(e, f) for f in forms)
+
+        def is_sel(e, names, field):
+            e = strip(e)
+            if is_call(e, name=names) and (("o" not in e) or is_this(e.get("o"))):
+                return True
+            e = deref(e) if isinstance(e, dict) else e
+            return is_field(e, field)
+
+        for c in folds:
+            n += 1
+            P, C = c["o"], c["a"][0]
+
+            def atom_entry(x):
+                cp = cmp_parts(x)
+                if not cp or cp[0] not in ("==", "!="):
+                    return 0
+                for a, b in ((cp[1], cp[2]), (cp[2], cp[1])):
+                    if is_sel(a, ("entry",), "m_entry") and is_label_of(b, C):
+                        return 1 if cp[0] == "==" else -1
+                return 0
+
+            def atom_exit(x):
+                x = strip(x)
+                cp = cmp_parts(x)
+                if cp and cp[0] in ("==", "!="):
+                    for a, b in ((cp[1], cp[2]), (cp[2], cp[1])):
+                        if is_sel(a, ("exit",), "m_exit") and is_label_of(b, P):
+                            return 1 if cp[0] == "==" else -1
+                    return 0
+                if isinstance(x, dict) and x.get("k") == "bin" and x.get("op") == "&&":
+                    l, r = strip(x.get("L")), strip(x.get("R"))
+                    for a, b in ((l, r), (r, l)):
+                        if is_call(a, name="has_exit") and atom_exit(b) == 1:
+                            return 1        # `has_exit() && exit() == P` IS the predicate "P is the exit block"
+                return 0
+            g = gs.get(id(c), ())
+            te = guard_truth(g, atom_entry, body)
+            tx = guard_truth(g, atom_exit, body)
+            if te is False:
+                ctx.ok("%s: the folded block is not the entry block" % fn["name"], fn, c)
+            else:
+                ctx.bad("cfg::%s folds a block into its predecessor without excluding the entry block: on `entry -> b -> entry` (or "
+                        "`entry -> entry`) the entry has one predecessor whose only successor it is, and remove(entry) ends the process "
+                        "with CRAB_ERROR(\"Cannot remove entry block\")" % fn["name"], fn, c, sig="fold-entry:%s" % fn["name"])
+            if tx is False:
+                ctx.ok("%s: nothing is appended to the exit block" % fn["name"], fn, c)
+            else:
+                ctx.bad("cfg::%s appends the statements of a block to its predecessor without excluding the exit block: on "
+                        "`entry -> exit -> c -> d` the assignment of c ends up in the exit block and every execution that ended at the "
+                        "exit now returns the values computed by c" % fn["name"], fn, c, sig="fold-into-exit:%s" % fn["name"])
+    if n == 0:
+        ctx.fail("rule C17.r10: no block fold (copy_back) found in crab::cfg::cfg")
+
+
+RULES += [r10_fold_guards]
